@@ -41,12 +41,11 @@ Record quirks := {
   q_inject_drift : bool;       (* inject jsonWalker: element counter only advances on processed elements *)
   q_inject_kind : bool;        (* inject: a non input-object node's ref indexes InputObjectTypeDefinitions *)
   q_inject_reparse : bool;     (* inject: the unquoted content of a JSON string is parsed as JSON text *)
-  q_default_null_wrap : bool;  (* default extraction: a null default of a list variable becomes [null] *)
   q_remap_collision : bool     (* validator: an Upload variable (never renamed) whose name equals a mapper-generated
                                   name is looked up under the variable that was renamed to it *)
 }.
-Definition go_quirks : quirks := Build_quirks true true true true true true true true true true.
-Definition no_quirks : quirks := Build_quirks false false false false false false false false false false.
+Definition go_quirks : quirks := Build_quirks true true true true true true true true true.
+Definition no_quirks : quirks := Build_quirks false false false false false false false false false.
 
 (* ------------------------------------------------------------------ type helpers *)
 Definition is_nonnull (t : ty) : bool := match t with TNonNull _ => true | _ => false end.
@@ -428,7 +427,8 @@ Fixpoint set_member (k : bytes) (v : json) (ms : list (bytes * json)) : list (by
   end.
 
 (* variablesDefaultValueExtractionVisitor.EnterVariableDefinition: only when the variable is absent.
-   isListVariable and valueBytes[0] is not an opening bracket wraps anything that is not an array -- null included. *)
+   A non-array default of a list variable is wrapped to the full depth; a null default stays null
+   (the code used to wrap it too -- repaired in /repo, see KNOWN_FINDINGS "fixed:" default-null-list-wrapped). *)
 Definition extract_default (q : quirks) (vd : vardef) (ms : list (bytes * json)) : list (bytes * json) :=
   match vd_default vd with
   | None => ms
@@ -440,7 +440,7 @@ Definition extract_default (q : quirks) (vd : vardef) (ms : list (bytes * json))
       let dj' := if is_list (vd_type vd) then
                    match dj with
                    | JArr _ => dj
-                   | JNull => if q_default_null_wrap q then wrap_n (list_depth (vd_type vd)) dj else dj
+                   | JNull => dj
                    | _ => wrap_n (list_depth (vd_type vd)) dj
                    end
                  else dj in
@@ -506,7 +506,83 @@ Section Inject.
   Definition jset (val : json) (k : bytes) (v : json) : option json :=
     match val with JObj ms => Some (JObj (set_member k v ms)) | _ => None end.
 
-  (* processObjectOrListInput [inject] / recursiveInjectInputFields [inject_fields] / jsonWalker [walk] *)
+  (* recursiveInjectInputFields [inject_fields / inject_loop] and jsonWalker [inject_walk], over the
+     processObjectOrListInput of the next fuel level [inj] *)
+  Section Parts.
+    Variable inj : ty -> json -> ires.
+
+    (* the loop over the field definitions; lookups go to the ORIGINAL value [v], writes to [final] *)
+    Fixpoint inject_loop (v : json) (fs : list inputvalue_def) (final : json) (any : bool) : ires :=
+      match fs with
+      | [] => IOk final any
+      | f :: r =>
+        match v with
+        | JStr _ => IErr   (* only reachable with q_inject_reparse off *)
+        | _ =>
+          let ex := jget (iv_name f) v in
+          if is_scalar_or_enum (iv_type f) then
+            match iv_default f, ex with
+            | Some d, None =>
+              match jset final (iv_name f) (value_to_json d) with
+              | Some final' => inject_loop v r final' true
+              | None => IErr
+              end
+            | _, _ => inject_loop v r final any
+            end
+          else
+            let use := match ex, iv_default f with
+                       | Some x, _ => Some x
+                       | None, Some d => Some (value_to_json d)
+                       | None, None => None
+                       end in
+            match use with
+            | None => inject_loop v r final any
+            | Some u =>
+              match inj (iv_type f) u with
+              | IOk fv rep =>
+                if (match ex with None => true | Some _ => false end) || rep then
+                  match jset final (iv_name f) fv with
+                  | Some final' => inject_loop v r final' true
+                  | None => IErr
+                  end
+                else inject_loop v r final any
+              | other => other
+              end
+            end
+        end
+      end.
+
+    Definition inject_fields (ofs : option (list inputvalue_def)) (v : json) : ires :=
+      match ofs with
+      | None => IPanic
+      | Some fs => inject_loop v fs v false
+      end.
+
+    (* the callback of jsonparser.ArrayEach: [idx] = position of the element, [i] = the counter the code keeps *)
+    Fixpoint inject_walk (lol : bool) (ofs : option (list inputvalue_def)) (t' : ty)
+             (l : list json) (idx i : nat) (cur : list json) (rep : bool) : ires :=
+      match l with
+      | [] => IOk (JArr cur) rep
+      | x :: r =>
+        let processed :=
+            match x with
+            | JArr _ => if lol then Some (inj t' x) else None
+            | JObj _ => if lol then None else Some (inject_fields ofs x)
+            | _ => None
+            end in
+        let at_i := if q_inject_drift q then i else idx in
+        let skip_i := if q_inject_drift q then i else Datatypes.S i in
+        match processed with
+        | None => inject_walk lol ofs t' r (Datatypes.S idx) skip_i cur rep
+        | Some (IOk nv true) => inject_walk lol ofs t' r (Datatypes.S idx) (Datatypes.S i) (set_nth at_i nv cur) true
+        | Some (IOk _ false) => inject_walk lol ofs t' r (Datatypes.S idx) (Datatypes.S i) cur rep
+        | Some IErr => inject_walk lol ofs t' r (Datatypes.S idx) skip_i cur rep   (* "if err != nil { return }" *)
+        | Some other => other
+        end
+      end.
+  End Parts.
+
+  (* processObjectOrListInput *)
   Fixpoint inject (fuel : nat) (ft : ty) (val0 : json) {struct fuel} : ires :=
     match fuel with
     | O => IFuel
@@ -527,81 +603,17 @@ Section Inject.
           | KScalar => IOk val0 false
           | k =>
             if negb (q_inject_kind q) && negb (kind_eqb k KInputObject) then IOk val0 false else
-            let inject_fields (ofs : option (list inputvalue_def)) (v : json) : ires :=
-              match ofs with
-              | None => IPanic
-              | Some fs =>
-                (fix loop (fs : list inputvalue_def) (final : json) (any : bool) : ires :=
-                   match fs with
-                   | [] => IOk final any
-                   | f :: r =>
-                     match v with
-                     | JStr _ => IErr   (* only reachable with q_inject_reparse off *)
-                     | _ =>
-                       let ex := jget (iv_name f) v in
-                       if is_scalar_or_enum (iv_type f) then
-                         match iv_default f, ex with
-                         | Some d, None =>
-                           match jset final (iv_name f) (value_to_json d) with
-                           | Some final' => loop r final' true
-                           | None => IErr
-                           end
-                         | _, _ => loop r final any
-                         end
-                       else
-                         let use := match ex, iv_default f with
-                                    | Some x, _ => Some x
-                                    | None, Some d => Some (value_to_json d)
-                                    | None, None => None
-                                    end in
-                         match use with
-                         | None => loop r final any
-                         | Some u =>
-                           match inject fuel' (iv_type f) u with
-                           | IOk fv rep =>
-                             if (match ex with None => true | Some _ => false end) || rep then
-                               match jset final (iv_name f) fv with
-                               | Some final' => loop r final' true
-                               | None => IErr
-                               end
-                             else loop r final any
-                           | other => other
-                           end
-                         end
-                     end
-                   end) fs v false
-              end in
             match val with
             | JNull => IOk val true
             | JArr items =>
               if is_list ft then
                 match strip_nonnull ft with
-                | TList t' =>
-                  let lol := is_list t' in
-                  (fix walk (l : list json) (idx i : nat) (cur : list json) (rep : bool) : ires :=
-                     match l with
-                     | [] => IOk (JArr cur) rep
-                     | x :: r =>
-                       let processed :=
-                           match x with
-                           | JArr _ => if lol then Some (inject fuel' t' x) else None
-                           | JObj _ => if lol then None else Some (inject_fields (fields_by_ref td) x)
-                           | _ => None
-                           end in
-                       let at_i := if q_inject_drift q then i else idx in
-                       match processed with
-                       | None => walk r (Datatypes.S idx) (if q_inject_drift q then i else Datatypes.S i) cur rep
-                       | Some (IOk nv true) => walk r (Datatypes.S idx) (Datatypes.S i) (set_nth at_i nv cur) true
-                       | Some (IOk _ false) => walk r (Datatypes.S idx) (Datatypes.S i) cur rep
-                       | Some IErr => walk r (Datatypes.S idx) (if q_inject_drift q then i else Datatypes.S i) cur rep
-                       | Some other => other
-                       end
-                     end) items O O items false
+                | TList t' => inject_walk (inject fuel') (is_list t') (fields_by_ref td) t' items O O items false
                 | _ => IOk val0 false
                 end
               else IOk val0 false
             | _ => if is_list ft then IOk val0 false else
-                     match inject_fields (fields_by_ref td) val with
+                     match inject_fields (inject fuel') (fields_by_ref td) val with
                      | IOk v false => IOk val0 false
                      | other => other
                      end
